@@ -162,6 +162,11 @@ EndStep ==      \* commit: the model projects to what was logged
   /\ l <= N
   /\ Ev.e \in {"Q", "End"} \/ k = 1
   /\ Match(Ev.obs) /\ Props
+  \* a task runs until it BLOCKS: in the async pool there is no suspension point between the
+  \* assignment pass (or the refusal that leads to it) and parking on the connection event, so a
+  \* quantum never ends there - a request with a pool timeout is parked, with its deadline armed,
+  \* in the very quantum in which it was (re-)queued                       (C16)
+  /\ (Ev.e = "Q" /\ ~Threads /\ Ev.r \in TReq) => Chk("q.blocked", pc[Ev.r] \notin {"wait", "retry"})
   /\ Ev.e = "End" => Chk("i.NoStuckCaller", EndOK /\ \A r \in SeqToSet(Ev.live) : pc[r] \notin Terminal)
   \* observed on the simulated network when a response head is handed to its caller:
   \* C10 - the request went to a stream made for exactly its origin, TLS per scheme
